@@ -37,7 +37,7 @@ TEST_DATA = "/repo/test-data"
 PART_COLS = ("pi", "ps", "pb", "pt")
 
 
-def source_frame(n=36, an_kind="Int64", an_rows=(), with_n=True, parts=(), tz=()):
+def source_frame(n=36, an_kind="Int64", an_rows=(), with_n=True, parts=(), tz=(), long_text=False):
     r = np.arange(n)
     d = {
         "rid": r.astype("int64"),
@@ -50,6 +50,10 @@ def source_frame(n=36, an_kind="Int64", an_rows=(), with_n=True, parts=(), tz=()
     }
     for z in tz:        # tz-AWARE datetime columns: the instants of t, shown in a zone
         d[z] = d["t"].tz_localize("UTC").tz_convert({"tl": "Europe/London", "tu": "UTC", "tk": "Asia/Kolkata"}[z])
+    if long_text:       # text cells of 74..133 bytes sharing a 70-byte prefix (long URLs): u object with None, us str dtype
+        long = ["https://example.org/" + "p" * 50 + "/%03d" % ((k * 37) % 101) + "x" * (k % 60) for k in r]
+        d["u"] = pd.Series([None if k % 4 == 2 else v for k, v in zip(r, long)], dtype=object)
+        d["us"] = pd.Series(long[::-1], dtype="str")
     if with_n:
         d["n"] = pd.array([None if k % 6 == 2 else int(k % 9) - 4 for k in r], dtype="Int64")
     lo, hi = (an_rows or (0, 0))
@@ -158,6 +162,10 @@ RECIPES = {
     # other page boundaries for text / bool / categorical), v1 and v2
     "pages_v1":   dict(n=60, offsets=[0, 30], v=1, page=64, stats=True, an=("Int64", (30, 45))),
     "pages_v2":   dict(n=60, offsets=[0, 30], v=2, page=64, stats=True, an=None, with_n=False),
+    # text columns whose cells are LONGER than 64 bytes and share a 70-byte prefix, statistics on, several row groups
+    "long_text":  dict(n=36, offsets=[0, 12, 24], v=1, page=None, stats=True, an=None, long=True),
+    "long_text_hive_v2": dict(n=36, offsets=[0, 18], v=2, page=None, stats=["rid", "u", "us"], an=None, long=True,
+                              scheme="hive", with_n=False),
     # MAX_PAGE_SIZE=16: one row per page for the 8-byte columns, 3 / 2 pages for the categorical column
     "pages_v1_tiny": dict(n=48, offsets=[0, 30], v=1, page=16, stats="auto", an=("str", (30, 40))),
 }
@@ -165,6 +173,7 @@ RECIPES = {
 QUICK = ["flat1", "flat3", "flat4v2", "flat2v2", "hive0", "hive_pi", "hive_ps_pb", "hive_pt", "drill_pi_ps",
          "idx_range", "idx_dt", "idx_int", "empty0", "one_row"]
 TZ = ["tz_data", "tz_idx_london", "tz_idx_utc_hive"]        # not part of QUICK: used by the modules that ask for them
+LONG_TEXT = ["long_text", "long_text_hive_v2"]             # asked for by c05
 PAGES = ["pages_v1", "pages_v2", "pages_v1_tiny"]                           # not part of QUICK either (c13 asks for them)
 
 FOREIGN = ["nation.plain.parquet", "nation.dict.parquet", "nation.impala.parquet", "snappy-nation.impala.parquet",
@@ -188,7 +197,7 @@ def recipe_code(name):
     else:
         L.append("src = source_frame(%d, an_kind=%r, an_rows=%r, with_n=%r, parts=%r%s)" % (
             rc["n"], an[0] if an else None, an[1] if an else (), rc.get("with_n", True), parts,
-            ", tz=%r" % (tuple(rc["tz"]),) if rc.get("tz") else ""))
+            (", tz=%r" % (tuple(rc["tz"]),) if rc.get("tz") else "") + (", long_text=True" if rc.get("long") else "")))
     ix = rc.get("index")
     if ix == "range":
         L.append("towrite = src.set_axis(pd.RangeIndex(5, 5 + 2 * len(src), 2), axis=0)")
